@@ -37,7 +37,9 @@ FUNCTIONS = ["ebpfcat/arraymap.py:ArrayMap.collect/init/create_map",
              "ebpfcat/ebpf.py:MemoryDesc.__get__/__set__, Memory.calculate/_set "
              "(map variables), EBPF.__init__ (map initialisation)"]
 SINGLE = "bBhHiIqQ"
-MULTI = ["2H", "Bh", "3B", "Ib", "2q"]
+MULTI = ["2H", "Bh", "3B", "Ib", "2q",
+         # one element, spelled with a byte order: still a scalar in Python
+         ">H", "<i", "!I", "<Q", ">h", "!2H"]
 CPUS = 4
 
 
@@ -132,6 +134,9 @@ def fmt_items(fmt):
         return [("q", 0)]
     items, rep = [], ""
     letters = []
+    pre = ""
+    if fmt[0] in "<>!=":
+        pre, fmt = fmt[0], fmt[1:]
     for ch in fmt:
         if ch.isdigit():
             rep += ch
@@ -140,9 +145,9 @@ def fmt_items(fmt):
             rep = ""
     off = 0
     for i, ch in enumerate(letters):
-        w = struct.calcsize(ch)
-        pre = struct.calcsize("".join(letters[:i + 1])) - w
-        items.append((ch, pre))
+        w = struct.calcsize(pre + ch)
+        start = struct.calcsize(pre + "".join(letters[:i + 1])) - w
+        items.append((pre + ch, start))
     return items
 
 
@@ -350,7 +355,7 @@ def fresh(name, fmt):
     vals = []
     for i, (ch, off) in enumerate(fmt_items(fmt)):
         w = struct.calcsize(ch)
-        if ch == "Q":
+        if ch[-1] == "Q":
             vals.append(E.int(f"{name}_{i}", 0, 2 ** 63 - 1))
         else:
             vals.append(E.int(f"{name}_{i}", bits=8 * w, signed=ch.islower()))
@@ -360,8 +365,9 @@ def fresh(name, fmt):
 def ref_read(buf, pos, ch):
     w = struct.calcsize(ch)
     v = 0
+    big = ch[0] in ">!"
     for i in range(w):
-        v = v + (buf[pos + i] << (8 * i))
+        v = v + (buf[pos + i] << (8 * (w - 1 - i if big else i)))
     if ch.islower():
         v = pysym.ite(v >= (1 << (8 * w - 1)), v - (1 << (8 * w)), v)
     return v
@@ -458,8 +464,10 @@ def python_harness(seed):
                 for i in range(struct.calcsize(v["fmt"])):
                     expect[pos + i] = None      # padding inside the variable
                 for (ch, off), x in zip(fmt_items(v["fmt"]), vals):
-                    for i in range(struct.calcsize(ch)):
-                        expect[pos + off + i] = (x >> (8 * i)) & 0xff
+                    w = struct.calcsize(ch)
+                    for i in range(w):
+                        sh = 8 * (w - 1 - i if ch[0] in ">!" else i)
+                        expect[pos + off + i] = (x >> sh) & 0xff
             good = True
             for i in range(sizes["m"]):
                 if expect[i] is not None:
@@ -487,6 +495,9 @@ def python_harness(seed):
                         want = [ref_read(data, cpu * stride + pos + off, ch)
                                 for ch, off in items]
                         gt = got if isinstance(got, tuple) else (got,)
+                        E.prove(isinstance(got, tuple) == (len(items) > 1),
+                                f"per-CPU {v['fmt']} variable: one element "
+                                "reads as a scalar, several as a tuple")
                         E.prove(len(gt) == len(want) and pysym.land(
                             *[a == b for a, b in zip(gt, want)]),
                             f"per-CPU {v['fmt']} variable: CPU {cpu}'s value "
